@@ -33,6 +33,26 @@ pub struct Game {
     ticker: Position,
 }
 
+#[cfg(robopoker_verif)]
+impl Game {
+    /// verification hooks: read-only views of the private state, and a dealt hand with chosen hole cards
+    pub fn verif_seats(&self) -> [Seat; N] {
+        self.seats
+    }
+    pub fn verif_dealer(&self) -> usize {
+        self.dealer
+    }
+    pub fn verif_ticker(&self) -> usize {
+        self.ticker
+    }
+    pub fn verif_with_holes(mut self, holes: [Hole; N]) -> Self {
+        for (seat, hole) in self.seats.iter_mut().zip(holes.iter()) {
+            seat.reset_cards(*hole);
+        }
+        self
+    }
+}
+
 impl Game {
     pub fn base() -> Self {
         Self {
